@@ -338,6 +338,9 @@ class Server(object):
         if not self.ehlo_as or self.authed or self.have_mailfrom:
             bad_sequence.send(self.io)
             return
+        if not arg:
+            bad_arguments.send(self.io)
+            return
         auth = self.extensions.getparam('AUTH')
         assert auth is not None
 
